@@ -611,6 +611,13 @@ def rule_single_pass(ctx, rid="R12.7"):
     prog = ctx.prog
     r = ctx.rule(rid, "FormatChecker(formats=...) consumes its `formats` iterable at most once on every path", floor=1)
     f = find_method(prog, "_format.FormatChecker", "__init__")
+    from .fmtsem import init_eval
+    sem = init_eval(prog)
+    if sem is not None:
+        if sem["init"] is None:
+            r.ok(site(f) + " [table]", "a copy of its own class's registry, or the named subset (also from a one-shot iterator); unknown names raise KeyError")
+        else:
+            r.fail("%s|init-table" % f.qual, site(f), sem["init"])
     if len(f.params) < 2:
         raise AnalysisError("FormatChecker.__init__ lost its formats parameter")
     p = f.params[1]
@@ -690,3 +697,7 @@ def run(ctx):
     rule_string_guard(ctx)
     rule_registration(ctx)
     rule_single_pass(ctx)
+    # R12.8: "without a format checker format has no effect" also where the library validates on the caller's behalf: check_schema
+    # (and so jsonschema.validate) checks the schema against the metaschema with no format checker
+    from .c11 import rule_wiring
+    rule_wiring(ctx, "R12.8")
